@@ -229,7 +229,7 @@ class C11(runner.Check):
                 'TM.Helpers.C11_get_transitions_nested_partial', 'TM.Helpers.C11_get_transitions_nested_counterexample',
                 'TM.Helpers.C11_wrapper_binding_partial', 'TM.Helpers.C11_wrapper_binding_counterexample',
                 'TM.Helpers.C11_no_overwrite_partial', 'TM.Helpers.C11_no_overwrite_counterexample',
-                'TM.Helpers.C11_checked_assignment', 'TM.Helpers.C11_trigger_ne_attribute',
+                'TM.Helpers.C11_override_only_replaces', 'TM.Helpers.C11_checked_assignment', 'TM.Helpers.C11_trigger_ne_attribute',
                 'TM.Helpers.C11_names_injective')
     rule = ('flat: random model_attribute / model_override / auto_transitions / Enum-or-string states, 1-2 model classes '
             'predefining up to 4 clashing names as methods, class values, instance values or None (or the machine as '
